@@ -73,10 +73,12 @@ def tx_stats(B, gmm, C, D, SP, a, b, ll):
     return s
 
 
-def sc_mstep(B, C, D, a, trainer, um, uv, uw):
+def sc_mstep(B, C, D, a, trainer, um, uv, uw, count_floor=None):
     gmm = B.mod("gmm")
     b = B.arr("b", (D,))
     kw = dict(update_means=um, update_variances=uv, update_weights=uw)
+    if count_floor is not None:
+        kw["mean_var_update_threshold"] = count_floor
     if trainer == "ml":
         m, P = make_gmm(B, C, D, "matrix", simplex=True, **kw)
         m2 = tx_machine(B, gmm, C, D, P, a, b, **kw)
@@ -88,8 +90,19 @@ def sc_mstep(B, C, D, a, trainer, um, uv, uw):
         m2 = gmm.GMMMachine(C, trainer="map", ubm=ubm2, map_relevance_factor=r, **kw)
     s, SP = sym_stats(B, C, D, "s", data_like=True)
     B.assume(SP["t"] > 0)
-    for c in range(C):
-        B.assume(SP["n"][c] > 1e-3)
+    if count_floor is None:
+        for c in range(C):
+            B.assume(SP["n"][c] > 1e-3)
+    else:
+        # components may have (almost) no evidence: counts anywhere in [0, inf), also below the count floor
+        for c in range(C):
+            for d in range(D):
+                if B.sym:
+                    import z3
+
+                    B.assume(z3.Implies(SP["n"][c].z == 0, z3.And(SP["F"][c, d].z == 0, SP["S"][c, d].z == 0)))
+                elif float(SP["n"][c]) == 0:
+                    B.assume(float(SP["F"][c, d]) == 0 and float(SP["S"][c, d]) == 0)
     s2 = tx_stats(B, gmm, C, D, SP, a, b, s.log_likelihood)
     gmm.m_step([s], m)
     gmm.m_step([s2], m2)
@@ -240,6 +253,35 @@ def job_gmm(P, a):
         P.run("ml-m%dv%dw%d" % (um, uv, uw), sc_mstep, dict(C=C, D=D, a=a, trainer="ml", um=um, uv=uv, uw=uw), validate=1 if (um, uv, uw) == (True, True, True) else 0)
     for um, uv, uw in ((True, False, False), (True, True, True), (False, True, False)):
         P.run("map-m%dv%dw%d" % (um, uv, uw), sc_mstep, dict(C=C, D=D, a=a, trainer="map", um=um, uv=uv, uw=uw), validate=1 if uv is False else 0)
+    for tr in ("ml", "map"):
+        P.run("%s-means-low-evidence" % tr, sc_mstep, dict(C=C, D=D, a=a, trainer=tr, um=True, uv=False, uw=False, count_floor=0.05), validate=1)
+
+
+def sc_loop_scale(B, K, lam):
+    """the k-means / GMM stopping rules depend on the relative change only: scaling the criterion
+    (i.e. the units of the features) must not change the number of iterations"""
+    from .c03 import LoopStub
+
+    km = B.mod("kmeans")
+    seq = [B.real("a%d" % (k + 1), pos=True) for k in range(K)]
+    thr = B.real("thr", nonneg=True)
+    tags = []
+    for sc in (1.0, lam):
+        m = km.KMeansMachine(2, init_method=B.np.zeros((2, 1)), max_iter=K, convergence_threshold=thr)
+        with LoopStub(B, "kmeans", [sc * v for v in seq], "kmeans", shape=(2, 1)):
+            try:
+                m.fit(B.np.zeros((4, 1)))
+            except StopIteration:
+                raise AssumptionFailed()
+        tags.append(m.centroids_[0, 0])
+    o = Outcome()
+    o.equal("same-number-of-iterations-after-rescaling", tags[1], tags[0])
+    return o
+
+
+def job_loop(P):
+    for lam in (1e-10, 1e6):
+        P.run("kmeans-loop-scale-%g" % lam, sc_loop_scale, dict(K=3, lam=lam), validate=1)
 
 
 def job_scoring(P, a):
@@ -261,4 +303,5 @@ def jobs(tier):
         out.append(("scoring-" + tag, "job_scoring", dict(a=a)))
     for sc in (2.0, 0.5):
         out.append(("kmeans-s%g" % sc, "job_kmeans", dict(scale=sc)))
+    out.append(("loop-scale", "job_loop", {}))
     return out
